@@ -22,10 +22,9 @@
 (***************************************************************************)
 EXTENDS DiffFormat, IOUtils
 
+\* transcription of the action enum of nbdime/merge_format.schema.json
 SchemaActions == {"local", "remote", "base", "clear", "clear_all", "remove", "either",
-                  "local_then_remote", "remote_then_local", "custom"}
-\* actions the Python merger can emit (take_max: nbformat_minor conflicts)
-EmittedActions == SchemaActions \cup {"take_max"}
+                  "local_then_remote", "remote_then_local", "take_max", "custom"}
 
 DecisionSchemaOK(dec) ==
   /\ Len(dec.extra) = 0
